@@ -106,8 +106,12 @@ def run_scenarios(ctx, prop, make_scenarios, proj, max_violations=3, want=None):
                 agg[k] = agg.get(k, 0) + v
             try:
                 iobs, _ = run_impl(sc)
-            except NonLattice:
+            except NonLattice as e:
+                # every amount the unchanged code produces on these configurations is a whole number of quanta (pool sizes and requests are, and the shipped
+                # schedulers only add, subtract, double and take whole tenths): an amount off the lattice cannot be followed by the model -- the tie is broken
                 ctx.sit("discard_non_lattice")
+                if len(ctx.unproved) < 3:
+                    ctx.unproved.append({"kind": "correspondence", "component": "executor (layer E): an amount off the model's lattice", "detail": str(e)[:200], "scenario": sc})
                 continue
             if h not in seen and nontrivial(g):
                 seen.add(h)
